@@ -103,7 +103,18 @@ func c16Compare(e c16Expected, p *icc.Profile) (field, detail string) {
 func c16Profile(h []byte) []byte {
 	var hdr [128]byte
 	copy(hdr[:], h)
-	b, _ := imggen.ICCSpec{Header: hdr, KeepSig: true, KeepSize: true, Tags: []imggen.ICCTag{{Sig: "cprt", Data: []byte{1, 2, 3, 4}}}}.Build()
+	// the body carries tags that say things a header field also says (media white point, adaptation
+	// matrix, a colorant): the header fields are what bytes 0 ... 127 hold, whatever the tags say
+	xyz := func(x, y, z uint32) []byte {
+		b := append([]byte("XYZ \x00\x00\x00\x00"), be32c(x)...)
+		return append(append(b, be32c(y)...), be32c(z)...)
+	}
+	b, _ := imggen.ICCSpec{Header: hdr, KeepSig: true, KeepSize: true, Tags: []imggen.ICCTag{
+		{Sig: "cprt", Data: []byte{1, 2, 3, 4}},
+		{Sig: "wtpt", Data: xyz(0x0000F351, 0x00010000, 0x000116CC)},
+		{Sig: "bkpt", Data: xyz(0x00000123, 0x00000456, 0x00000789)},
+		{Sig: "rXYZ", Data: xyz(0x00006FA2, 0x000038F5, 0x00000390)},
+	}}.Build()
 	return b
 }
 
@@ -488,6 +499,46 @@ func runC16(r *core.Run) {
 					}
 				}
 			}
+		}
+	}
+	// size fields around 128 and around the length of the data that is handed over; file signatures
+	// that are not 'acsp' in otherwise plausible headers (class, colour space and PCS in place)
+	var allVias [][]byte
+	{
+		std := imggen.MinimalHeader(true)
+		l := len(c16Profile(std[:]))
+		for _, sz := range []int{0, 1, 127, 128, 129, 130, 131, 132, 133, 144, l - 5, l - 4, l - 1, l, l + 1, l + 4, 1 << 20} {
+			for k := 0; k < 2; k++ {
+				h := append([]byte{}, std[:]...)
+				if k == 1 {
+					h = base(2)
+				}
+				binary.BigEndian.PutUint32(h[0:], uint32(sz))
+				allVias = append(allVias, h)
+			}
+		}
+		for _, sig := range []string{"\x00\x00\x00\x00", "    ", "ACSP", "acs\x00", "\x00csp", "acsq", "psca"} {
+			for _, class := range []string{"mntr", "scnr", "prtr", "spac", "abst", "nmcl", "link"} {
+				h := append([]byte{}, std[:]...)
+				copy(h[36:40], sig)
+				copy(h[12:16], class)
+				copy(h[20:24], []string{"XYZ ", "Lab "}[len(class+sig)%2])
+				allVias = append(allVias, h)
+			}
+		}
+		// the illuminant bytes all zero (and the other fields ordinary)
+		h := append([]byte{}, std[:]...)
+		for i := 68; i < 80; i++ {
+			h[i] = 0
+		}
+		allVias = append(allVias, h)
+	}
+	for _, h := range allVias {
+		for _, via := range []string{"ReadProfile", "png", "bufio@4000", "short-reads", "bytes.Buffer", "second-in-reader", "data-reused", "data-asked-thrice", "same-reader-after-rejected"} {
+			if kind, msg := c16Check(h, via); kind != "" {
+				r.Violate("header", kind+"/"+via, msg, c16Case{Header: hex.EncodeToString(h), Via: via})
+			}
+			r.AddEvals(1)
 		}
 	}
 	nrand := 100000
